@@ -23,9 +23,9 @@ PROPS = {
         "assumptions": ["'nothing is sent to the cluster or stored' on rejection is checked here for the dry-run install path; the ordering gate-before-writes of the real install/upgrade is part of the action model (C06/C07)"],
     },
     "C15": {
-        "corr": [("chartio", {"quick": 700, "thorough": 15000})],
+        "corr": [("chartio", {"quick": 700, "thorough": 15000}), ("ignore", {"quick": 1200, "thorough": 30000})],
         "trusted_base": [
-            "modelled, not verified: archive/tar + gzip framing, YAML marshalling of Chart.yaml / Chart.lock and parsing of values.yaml (carried as opaque documents), filepath.Match and the .helmignore matcher, .tgz sub-charts and Helm-2 requirements files (not generated)",
+            "modelled, not verified: archive/tar + gzip framing, YAML marshalling of Chart.yaml / Chart.lock and parsing of values.yaml (carried as opaque documents), filepath.Match beyond literals, * and ? (character classes and escapes are outside the .helmignore model and are not generated), the directory walk of sympath.Walk (entries are handed to the model), .tgz sub-charts and Helm-2 requirements files (not generated)",
         ],
         "assumptions": ["the complete round trip load(save c) = c is established by correspondence on generated charts (model writer/loader agree with chartutil.Save / loader.Load on every case, and the loaded chart is compared with the original field by field); the theorems cover, for all names and contents, the name/bytes survival lemmas, the classification and the exact exclusions"],
     },
